@@ -382,8 +382,12 @@ def run_net(c: Case, case: dict) -> dict:  # noqa: C901, PLR0915
 
         handed_net: dict = {}
         carried_net: dict = {}
+        removing: set = set()      # circuits this node has started to tear down (destroy sent, removal pending)
 
         def send_data(target_addr, circuit_id, dest, src, data):  # noqa: ANN001, ANN202
+            if data[:22] == aprefix and circuit_id in removing:
+                c.violate("right_circuit", "tunnelled_over_circuit_being_removed",
+                          f"anonymized packet handed to circuit {circuit_id}, which this node is tearing down (its destroy has been sent)")
             if data[:22] == aprefix:
                 carried_net[data] = carried_net.get(data, 0) + 1
                 if carried_net[data] > handed_net.get(data, 0):
@@ -466,6 +470,7 @@ def run_net(c: Case, case: dict) -> dict:  # noqa: C901, PLR0915
                     cid = sorted(tc.circuits)[0]
                     if me.endpoint.send_queue:
                         world.probe("circuit_closing_with_queue")
+                    removing.add(cid)
                     me.call(tc.remove_circuit, cid, "c07", destroy=1)
             elif op == "crash_hop":
                 ready = [x for x in tc.circuits.values() if x.hops]
